@@ -15,7 +15,9 @@ Output (Gallina):
                 its failure value after finishing its clean-up
       Returned  the result is the function's own result (return X(..); ret_value = X(..);)
       OnFailPath the result is not used, but the call sits in a block that unconditionally leaves with the failure value
+      Diverted  the result is tested; on failure the function returns the result of another call (the next site)
       Dropped   anything else: result unused, or only logged
+spec["facts"] = [[file, function, regex, name], ...]   ->  Definition fact_<name> : bool  (does the regex match inside the function?)
   anchored : list (string * list (string * cls))
 
 The scanner works on the comment-stripped source text of each function (macros such as HGOTO_ERROR are recognised
@@ -25,7 +27,7 @@ recognise as checked is Dropped, and a Dropped site breaks `anchored_sites_check
 import re
 
 ERR_EXIT = r"(?:HGOTO_ERROR|HGOTO_FAIL|HRETURN_ERROR|HE_REPORT_GOTO|HE_REPORT_RETURN|HCLOSE_GOTO_ERROR|HGOTO_DONE\s*\(\s*FAIL|" \
-           r"return\s*\(?\s*(?:FAIL|-\s*1|NULL|FALSE|ncabort)\b|return\s+ret_value|goto\s+done)"
+           r"return\s*\(?\s*(?:FAIL|-\s*1|NULL|FALSE)\b|return\s+ret_value|goto\s+done)"
 LATE_SET = r"(?:ret_value\s*=\s*(?:FAIL|-\s*1|FALSE)|status\s*=\s*(?:FAIL|-\s*1)|[A-Za-z_]*failed\s*=\s*(?:TRUE|1))"
 
 
@@ -158,6 +160,8 @@ def classify(body, pos, end_call, fn_tail_has_flag_test):
             return "Checked"
         if re.search(LATE_SET, stmt):
             return "Late"
+        if re.search(r"\breturn\s+[A-Za-z_][A-Za-z0-9_]*\s*\(", stmt):
+            return "Diverted"     # on failure the function returns the result of ANOTHER call (listed next)
         return "Dropped"          # e.g. only HERROR(...) / HEreport(...)
     s, e = statement_bounds(body, pos)
     stmt = body[s:e].strip()
@@ -232,7 +236,7 @@ def macro_shape(body):
 
 def emit(repo, spec, H):
     out = ["From Coq Require Import String.", "Local Open Scope string_scope.",
-           "Inductive cls := Checked | Late | Returned | OnFailPath | Dropped.", ""]
+           "Inductive cls := Checked | Late | Returned | OnFailPath | Diverted | Dropped.", ""]
     f, names = spec["hi_macros"]
     d = H.defines(repo, f)
     rows = []
@@ -255,6 +259,10 @@ def emit(repo, spec, H):
             fn, "; ".join('("%s", %s)' % (n, c) for n, c, _ in sites)))
         allf.append(fn)
     out.append("")
+    for f, fn, rx, name in spec.get("facts", []):
+        body = H.func_body(H.raw(repo, f), fn)
+        out.append("(* %s: %s contains /%s/ ? *)" % (f, fn, rx.replace("(*", "( *").replace("*)", "* )").replace('"', "'")))
+        out.append("Definition fact_%s : bool := %s." % (name, "true" if re.search(rx, body) else "false"))
     out.append("Definition anchored : list (string * list (string * cls)) :=\n  [%s]." % ";\n   ".join(
         '("%s", sites_%s)' % (fn, fn) for fn in allf))
     return out
